@@ -112,13 +112,18 @@ Section Redis.
           let '(db1, ok) := refresh_expiration db sid now (match h_added h with Some a => a | None => 0%Z end) in
           (db1, if ok then ROk (RAuth (Some {| a_state := st; a_nonce := nn; a_url := u; a_verifier := v |})) else RErr)
     | OClearAuth sid =>
-        (* HDEL state nonce requested_url (the verifier stays); refresh with the zero time *)
-        let h := rhget db sid now in
-        let h1 := {| h_id := h_id h; h_access := h_access h; h_access_exp := h_access_exp h; h_refresh := h_refresh h;
-                     h_state := None; h_nonce := None; h_url := None; h_verifier := h_verifier h; h_added := h_added h |} in
-        let db1 := match rlive db sid now with Some _ => rput db sid now h1 | None => db end in
-        let '(db2, ok) := refresh_expiration db1 sid now 0 in
-        (db2, if ok then ROk RUnit else RErr)
+        (* EXISTS; a missing key: nothing to clear.  Otherwise HDEL state nonce requested_url (the verifier stays);
+           refresh with the zero time *)
+        match rlive db sid now with
+        | None => (db, ROk RUnit)
+        | Some _ =>
+            let h := rhget db sid now in
+            let h1 := {| h_id := h_id h; h_access := h_access h; h_access_exp := h_access_exp h; h_refresh := h_refresh h;
+                         h_state := None; h_nonce := None; h_url := None; h_verifier := h_verifier h; h_added := h_added h |} in
+            let db1 := rput db sid now h1 in
+            let '(db2, ok) := refresh_expiration db1 sid now 0 in
+            (db2, if ok then ROk RUnit else RErr)
+        end
     | ORemove sid => (rdel db sid, ROk RUnit)
     end.
 
